@@ -1475,7 +1475,7 @@ struct array : static_array<T, D, Alloc> {
 			adl_alloc_uninitialized_value_construct_n(this->alloc(), tmp.data_elements(), tmp.num_elements());
 		}
 		auto const is = intersection(this->extensions(), extensions);
-		tmp.apply(is) = this->apply(is);  // TODO(correaa) : use (and implement) `.move();`
+		tmp.apply(is).elements() = this->apply(is).elements();  // blocks of equal sizes; their index bases are those of the two arrays and may differ  // TODO(correaa) : use (and implement) `.move();`
 		this->destroy();
 		this->deallocate();
 		this->base_            = tmp.base();
@@ -1506,7 +1506,7 @@ struct array : static_array<T, D, Alloc> {
 		);
 		this->uninitialized_fill_n(tmp.data_elements(), static_cast<typename multi::allocator_traits<typename array::allocator_type>::size_type>(tmp.num_elements()), elem);
 		auto const is = intersection(this->extensions(), exs);
-		tmp.apply(is) = this->apply(is);
+		tmp.apply(is).elements() = this->apply(is).elements();  // blocks of equal sizes; their index bases are those of the two arrays and may differ
 		this->destroy();
 		this->deallocate();
 		this->base_            = tmp.base();  // TODO(correaa) : use (and implement) `.move();`
